@@ -382,6 +382,15 @@ def modeAfter (data : Bytes) : Mode := (foldBytes St.init data 0).1.mode
 /-- the tokens of `a`, then the tokens of `b` as they appear behind `a ++ ws` -/
 def concatLex (a ws b : Bytes) : List PTok := specLex a ++ shiftToks (a.length + ws.length) (specLex b)
 
+/-- the pieces written one after the other with the separator `ws` between them (content streams of a page) -/
+def joinWith (ws : Bytes) : List Bytes → Bytes
+  | [] => []
+  | [a] => a
+  | a :: r => a ++ ws ++ joinWith ws r
+
+/-- token values only -/
+def tokValues (ts : List PTok) : List Token := ts.map (·.2)
+
 /-- name of the scanner method (`_parse_<name>`) -/
 def Mode.pyName : Mode → String
   | .main => "main" | .comment => "comment" | .literal => "literal" | .literalHex => "literal_hex"
